@@ -25,7 +25,7 @@ from vlib.runner import Inconclusive, Outcome, digest
 ID = "C13"
 RULE = ("Hypothesis configurations: 1-5 named streams (ASCII, Unicode, empty, blank, NUL, 1000-char names), original "
         "seeds from {0, 1, -1, 10, +-2**63, 2**64+1} and arbitrary ints, prior history of each stream (set_seed, 0-5 "
-        "draws, an earlier update), seed tables over a subset of the names with lists of length 0-8 plus foreign "
+        "draws, an earlier update) and of the updater instance (it served other streams with the same names), seed tables over a subset of the names with lists of length 0-8 plus foreign "
         "names, replication numbers 0-8, list-length boundaries (len-1, len, len+1), 10**6, 2**40, 2**64, negative, "
         "float, str, None; two listing orders. In-process oracle: listed stream -> seed == table[name][r] and draws "
         "of a fresh stream with that seed; unlisted stream -> exactly what get_fallback_stream_updater() alone gives "
@@ -216,10 +216,13 @@ def _seeded(table):
     return StreamSeedUpdater({k: list(v) for k, v in table.items()})
 
 
-def _whole(make, specs, r, plain=False, prior=None):
-    """update_seeds over all streams of specs; -> {"exc": name|None, "obs": {name: obs}}."""
+def _whole(make, specs, r, plain=False, prior=None, other_first=None):
+    """update_seeds over all streams of specs; -> {"exc": name|None, "obs": {name: obs}}.
+    other_first: the same updater instance first serves ANOTHER set of streams (same names, other original seeds)"""
     d = _build(specs, plain)
     upd = make()
+    if other_first is not None:
+        _call(upd.update_seeds, _build(other_first, True), r)
     if prior is not None:
         _call(upd.update_seeds, d, prior)
     exc = _call(upd.update_seeds, d, r)
@@ -481,6 +484,10 @@ def _relations(out, uname, mk1, mk2, specs, order2, r, expected, unchanged, beyo
             break
     if case.get("prior") is not None and not beyond:
         judge("history-dependence:prior-update", _whole(mk1, specs, r, prior=case["prior"]), specs)
+    if not beyond:
+        # the updater instance has served another experiment's streams under the same names before
+        other = [(nm, og + 17 + 3 * i, 0, None) for i, (nm, og, _p, _c) in enumerate(specs)]
+        judge("history-dependence:updater-served-other-streams", _whole(mk1, specs, r, other_first=other), specs)
 
 
 # ---------------------------------------------------------------- cross-process part
